@@ -23,11 +23,13 @@
 //!
 //! Treatment of spellings: a header is *the same credential* as a genuine
 //! one if, after the keyword `Bearer` in any case and blanks, it is the
-//! admin token or an issued token byte for byte, or a base64 spelling
-//! (padding, alphabet, inner blanks, trailing bits) that decodes to the
-//! bytes of an issued token. Such a spelling may be served as that identity
-//! or not at all; everything else must be served to nobody (or, over the
-//! Unix socket, to the mapped peer). The canonical spelling must be served.
+//! admin token or an issued token byte for byte. A header that differs only
+//! in the keyword's case or in blanks may be served as that identity or not
+//! at all; everything else - including another base64 spelling (padding,
+//! alphabet, inner blanks, trailing bits) that decodes to the bytes of an
+//! issued token, the property's "re-encoded token" - must be served to
+//! nobody (or, over the Unix socket, to the mapped peer). The canonical
+//! spelling must be served.
 //!
 //! Two further phases on the same instance: (1) the first login after each
 //! daemon start is made by one low-privilege account; its holder tries to
@@ -761,13 +763,15 @@ fn who(cx: &Cx, header: Option<&str>) -> Who {
     if let Some(id) = cx.issued.get(core) {
         return Who { genuine: Some(id.clone()), exact, how: "issued-token" }
     }
+    // another base64 spelling of the bytes of an issued token (padding
+    // dropped, other alphabet, inner blanks, non-zero trailing bits) is a
+    // "re-encoded token" in the words of the property: it is NOT the string
+    // the login handed out and must authenticate nobody
     if let Some(bytes) = lenient_b64(core)
-        && let Some(tok) = cx.issued_bytes.get(&bytes)
-        && let Some(id) = cx.issued.get(tok)
+        && cx.issued_bytes.contains_key(&bytes)
     {
         return Who {
-            genuine: Some(id.clone()), exact: false,
-            how: "re-encoding-of-issued-token",
+            genuine: None, exact: false, how: "re-encoding-of-issued-token",
         }
     }
     none
